@@ -31,6 +31,7 @@ def plan(tier, seed):
     specs += [{"kind": "containers", "n": 250 if tier == "quick" else 2500} for _ in range(n // 2)]
     specs += [{"kind": "programs", "n": 1200 if tier == "quick" else 12000} for _ in range(n // 2)]
     specs += [{"kind": "suite"}]
+    specs += [{"kind": "large", "n": 40 if tier == "quick" else 400} for _ in range(2 if tier == "quick" else 6)]
     specs += [{"kind": "mutseq", "n": 600 if tier == "quick" else 6000} for _ in range(2 if tier == "quick" else 8)]
     return specs
 
@@ -355,6 +356,97 @@ def run_programs(spec, ctx):
         ctx.sample_maybe({"a": sa, "b": sb, "reference_equal": want}, 0.01)
 
 
+def run_large(spec, ctx):
+    """containers of 17..600 members built in two different orders (API and programs): equal, equal hashes, each a
+    member of the set holding the other, found as a map key, removable; list difference and membership with long
+    right-hand sides mixing ints and numerically equal decimals"""
+    import ckl.functions
+    import ckl.values as V
+    r = ctx.rng
+    it, out = core.new_interpreter(secure=True, legacy=True)
+
+    def ev(src, env=None):
+        env = env or ckl.functions.Environment()
+        return observe(lambda: it.interpret(src, "c06", env), 6000000)
+    for _ in range(spec["n"]):
+        n = r.choice([17, 32, 33, 40, 64, 65, 100, 128, 129, 200, 500, 600])
+        kind = r.choice(["int", "str", "mixnum", "list", "set"])
+        if kind == "int":
+            elems = [("int", x) for x in r.sample(range(-1000, 100000), n)]
+        elif kind == "str":
+            elems = [("str", "k%d" % x) for x in r.sample(range(100000), n)]
+        elif kind == "mixnum":
+            elems = [("int", x) if r.random() < 0.5 else ("dec", float(x)) for x in r.sample(range(0, 5000), n)]
+        elif kind == "list":
+            elems = [("list", (("int", x), ("str", "v"))) for x in r.sample(range(100000), n)]
+        else:
+            elems = [("set", (("int", x), ("int", x + 1 + r.randint(0, 3)))) for x in r.sample(range(0, 100000, 7), n)]
+        shape = r.choice(["set", "map", "object"]) if kind in ("str",) else r.choice(["set", "map"])
+        o1, o2 = list(elems), list(elems)
+        r.shuffle(o2)
+        ctx.case(("large", shape, kind, n, tuple(o2[:5])), nontrivial=True)
+        ctx.count("large_containers")
+
+        def build(order):
+            if shape == "set":
+                c = V.ValueSet()
+                for e in order:
+                    c.addItem(gv.to_ckl(e))
+                return c
+            if shape == "map":
+                c = V.ValueMap()
+                for i_, e in enumerate(order):
+                    c.addItem(gv.to_ckl(e), V.ValueInt(elems.index(e)))
+                return c
+            c = V.ValueObject()
+            for e in order:
+                c.addItem(e[1], V.ValueInt(elems.index(e)))
+            return c
+        try:
+            c1, c2 = build(o1), build(o2)
+            eq = (c1 == c2)
+            h = (hash(c1) == hash(c2))
+        except Exception as e:  # noqa
+            ctx.violation("C06:large:api-raises:%s" % shape, "%d %s members: %r" % (n, kind, e), {})
+            continue
+        if eq is not True:
+            ctx.violation("C06:large:order-dependent-equality:%s:%s" % (shape, kind), "two %ss of the same %d members built in different orders are not equal" % (shape, n), {"n": n})
+            continue
+        if not h:
+            ctx.violation("C06:large:eq-hash:%s:%s" % (shape, kind), "two equal %ss of %d members built in different orders hash differently" % (shape, n), {"n": n})
+        env = ckl.functions.Environment()
+        env.put("c1", c1)
+        env.put("c2", c2)
+        o = ev("[c1 == c2, c2 in <<c1>>, length(<<c1, c2>>) == 1, <<<identity(c1) => 'v'>>>[c2, 'missing'] == 'v', <<c1, 1>> == <<c2, 1>>, "
+               "do def s_ = <<c1>>; remove(s_, c2); length(s_) == 0 catch all 'raised' end, c2 in [c1], %s]" % ("TRUE" if shape == "object" else "string(c1) == string(c2)"), env)
+        ctx.count("program_evaluations")
+        if o.kind != "value" or core.safe_str(o.value) != "[TRUE, TRUE, TRUE, TRUE, TRUE, TRUE, TRUE, TRUE]":
+            ctx.violation("C06:large:interchangeable:%s:%s" % (shape, kind),
+                          "two equal %ss of %d %s members built in different orders: [==, in set, set size 1, map lookup, set ==, remove, in list, same text] = %s" % (
+                              shape, n, kind, core.safe_str(o.value if o.kind == "value" else o.exc, 200)), {"n": n})
+        # membership / difference against a long right-hand side holding numerically equal numbers of the other kind
+        m = r.choice([17, 33, 65, 130])
+        rhs_vals = r.sample(range(0, 400), m)
+        rhs = [("int", x) if r.random() < 0.5 else ("dec", float(x)) for x in rhs_vals]
+        lhs = [("int", x) if r.random() < 0.5 else ("dec", float(x)) for x in r.sample(range(0, 400), 12)] + [("int", rhs_vals[0]), ("dec", float(rhs_vals[1]))]
+        want_diff = [x for x in lhs if not rv.member(x, rhs)]
+        src_l, src_r = gv.to_source(("list", tuple(lhs))), gv.to_source(("list", tuple(rhs)))
+        o = ev("def l = %s; def b = %s; [l - b, [x for x in l if x not in b], [x for x in l if not (x in set(b))], list(set(l) - set(b)) == sorted(unique([x for x in l if x not in b]))]" % (src_l, src_r))
+        ctx.count("program_evaluations")
+        ctx.count("long_difference_programs")
+        ok = False
+        if o.kind == "value":
+            try:
+                got = gv.abstract(o.value)
+                ok = (rv.ref_eq(got[1][0], ("list", tuple(want_diff))) and rv.ref_eq(got[1][1], ("list", tuple(want_diff)))
+                      and rv.ref_eq(got[1][2], ("list", tuple(want_diff))) and got[1][3] == ("bool", True))
+            except Exception:  # noqa
+                ok = False
+        if not ok:
+            ctx.violation("C06:large:difference-respects-equality", "l - b with %d elements in b (ints and equal decimals): %s, reference difference %s" % (
+                m, core.safe_str(o.value if o.kind == "value" else o.exc, 300), gv.to_source(("list", tuple(want_diff)))[:200]), {"l": src_l, "b": src_r})
+
+
 def run_mutation_sequences(spec, ctx):
     """equal values must stay interchangeable as set elements and map keys after a nested part of one of them was
     mutated *after* the value had already been hashed (stale cached hashes, stale sorted views)"""
@@ -398,6 +490,8 @@ def run_shard(spec, ctx):
     if spec["kind"] == "suite":
         from cklmon import suite
         return suite.run_suite(ctx, "C06", "M2")
+    if spec["kind"] == "large":
+        return run_large(spec, ctx)
     if spec["kind"] == "mutseq":
         run_mutation_sequences(spec, ctx)
         valuelaws.MONITOR.drain(ctx, "C06")
@@ -415,7 +509,7 @@ def finalize(merged, tier):
     c = merged["counters"]
     reasons = []
     for k in ("eq_checks", "hash_checks", "api_pairs", "api_triples", "set_builds", "map_builds",
-              "program_evaluations", "mutation_sequences"):
+              "program_evaluations", "mutation_sequences", "large_containers", "long_difference_programs"):
         if c.get(k, 0) == 0:
             reasons.append("monitor counter %s is zero" % k)
     if merged["counters"].get("suite_tests", 0) == 0 or merged["counters"].get("suite_report_missing", 0):
